@@ -56,6 +56,38 @@ def property_deps(ctx, cls):
                 keys.add(n.slice.value)
         if attrs:
             out[name] = (attrs, keys)
+    # properties of base classes, and properties built on other properties
+    for c in ctx.project.mro(cls)[1:]:
+        for name, f in c.methods.items():
+            if name in out or not _is_property(f) or not f.params:
+                continue
+            sn = f.params[0]
+            attrs, keys = set(), set()
+            for n in own_nodes(f):
+                if _self_attr(n, sn):
+                    attrs.add(n.attr)
+                if isinstance(n, ast.Call) and isinstance(
+                        n.func, ast.Attribute) and n.func.attr == 'get' and \
+                        n.args and isinstance(n.args[0], ast.Constant) and \
+                        isinstance(n.args[0].value, str):
+                    keys.add(n.args[0].value)
+                if isinstance(n, ast.Subscript) and isinstance(
+                        n.slice, ast.Constant) and isinstance(
+                        n.slice.value, str) and isinstance(n.ctx, ast.Load):
+                    keys.add(n.slice.value)
+            if attrs:
+                out[name] = (attrs, keys)
+    changed = True
+    while changed:
+        changed = False
+        for name, (attrs, keys) in list(out.items()):
+            for a in list(attrs):
+                if a in out and a != name:
+                    a2, k2 = out[a]
+                    if not (a2 <= attrs and k2 <= keys):
+                        out[name] = (attrs | a2, keys | k2)
+                        attrs, keys = out[name]
+                        changed = True
     return out
 
 
@@ -75,7 +107,11 @@ def _direct_staling(f, attrs, keys):
                         if isinstance(x.slice, ast.Constant) and \
                                 x.slice.value in keys:
                             out.append(n)
-                        elif _self_attr(x.value, sn) and x.value.attr in attrs:
+                        elif _self_attr(x.value, sn) and x.value.attr in attrs \
+                                and not (isinstance(x.slice, ast.Constant)
+                                         and keys):
+                            # a store under another constant key of the same
+                            # mapping does not touch what the property reads
                             out.append(n)
                     elif _self_attr(x, sn) and x.attr in attrs and isinstance(
                             x.ctx, (ast.Store, ast.Del)):
@@ -238,16 +274,20 @@ def stale_snapshot_uses(ctx, cls, f, deps=None):
     return [u + (id(u[0]) in lenient,) for u in strict], len(snaps)
 
 
-def rule_snapshot(ctx, prop, rule):
+def rule_snapshot(ctx, prop, rule, cls_rel=EXCEL, cls_name=MODEL,
+                  need='references', min_snaps=2,
+                  consequence='names defined by a workbook opened meanwhile '
+                              'are unknown to the cells compiled with the '
+                              'snapshot (#REF!)'):
     rr = RuleResult(prop, rule, 'DFA',
-                    'a local snapshot of a derived model property is re-read '
-                    'after anything that can change it', floor=2)
+                    'a local snapshot of a derived property is re-read after '
+                    'anything that can change it', floor=min_snaps)
     p = ctx.project
-    cls = p.cls(EXCEL, MODEL)
+    cls = p.cls(cls_rel, cls_name)
     deps = property_deps(ctx, cls)
-    if 'references' not in deps:
-        raise AnalysisError('%s.references is not a derived property any more'
-                            % MODEL)
+    if need not in deps:
+        raise AnalysisError('%s.%s is not a derived property any more'
+                            % (cls_name, need))
     n_snaps = 0
     for name, f in sorted(cls.methods.items()):
         uses, n = stale_snapshot_uses(ctx, cls, f, deps)
@@ -275,15 +315,13 @@ def rule_snapshot(ctx, prop, rule):
                     'not decidable here' % (f.qualname, var, pr))
             rr.fail(key_of(f, 'stale snapshot of self.%s' % pr),
                     '%s uses `%s` (a snapshot of self.%s) at line %d on a path '
-                    'where %s may have changed it since it was read: names '
-                    'defined by a workbook opened meanwhile are unknown to the '
-                    'cells compiled with the snapshot (#REF!)' % (
-                        f.qualname, var, pr, n_.lineno, why or 'a call'),
+                    'where %s may have changed it since it was read: %s' % (
+                        f.qualname, var, pr, n_.lineno, why or 'a call',
+                        consequence),
                     file=f.module.rel, function=f.qualname, line=n_.lineno)
-    if n_snaps < 2:
+    if n_snaps < min_snaps:
         raise AnalysisError('snapshot rule: only %d snapshots of derived '
-                            'properties found (expected complete and push)'
-                            % n_snaps)
+                            'properties of %s found' % (n_snaps, cls_name))
     return rr
 
 
